@@ -1,8 +1,8 @@
 package main
 
 import (
-	"go/token"
 	"fmt"
+	"go/token"
 	"go/types"
 	"net/textproto"
 	"regexp"
@@ -17,12 +17,14 @@ func init() { register("C09", checkC09) }
 var fwdRe = regexp.MustCompile(`(?i)^(forwarded|x-forwarded-.*)$`)
 
 type tpAnchors struct {
-	newFn    *ssa.Function // trustedproxy.New
-	handler  *ssa.Function // the innermost closure (rw, req)
-	listVar  *ssa.Global
-	strip    map[string]bool
-	trust    *ssa.Call // the Contains call
-	delCalls []*ssa.Call
+	newFn      *ssa.Function // trustedproxy.New
+	handler    *ssa.Function // the innermost closure (rw, req)
+	listVar    *ssa.Global
+	strip      map[string]bool
+	trust      *ssa.Call // the Contains call
+	delCalls   []*ssa.Call
+	stripFn    *ssa.Function // helper holding the removal loop (nil: the loop is in the handler itself)
+	stripCalls []*ssa.Call   // the handler's calls of that helper
 }
 
 func findTrustedProxy(w *World) (*tpAnchors, error) {
@@ -39,7 +41,32 @@ func findTrustedProxy(w *World) (*tpAnchors, error) {
 	if a.handler == nil {
 		return nil, fmt.Errorf("trusted proxy request handler closure not found")
 	}
-	for _, c := range findCalls(a.handler, named("net/http.Header.Del")) {
+	delHost := a.handler
+	if len(findCalls(a.handler, named("net/http.Header.Del"))) == 0 {
+		// the removal may live in a helper of the same package that the handler calls with its request
+		for _, ci := range callsIn(a.handler) {
+			c, ok := ci.(*ssa.Call)
+			if !ok {
+				continue
+			}
+			callee := c.Common().StaticCallee()
+			if callee == nil || callee.Blocks == nil || fnPkgPath(callee) != fnPkgPath(a.handler) || len(findCalls(callee, named("net/http.Header.Del"))) == 0 {
+				continue
+			}
+			passesRequest := false
+			for _, arg := range c.Common().Args {
+				if arg == ssa.Value(a.handler.Params[1]) {
+					passesRequest = true
+				}
+			}
+			if passesRequest {
+				a.stripFn = callee
+				a.stripCalls = append(a.stripCalls, c)
+				delHost = callee
+			}
+		}
+	}
+	for _, c := range findCalls(delHost, named("net/http.Header.Del")) {
 		a.delCalls = append(a.delCalls, c)
 		// the deleted name is an element of a ranged package-level list
 		for _, o := range []ssa.Value{c.Common().Args[1]} {
@@ -199,8 +226,16 @@ func c09Unconditional(w *World, r *Report, tp *tpAnchors) {
 	h := tp.handler
 	isTrust := func(v ssa.Value) bool { return v == tp.trust }
 	// every Del sits on the not-trusted edge ... and nothing on the trusted edge deletes or adds
-	ok := len(tp.delCalls) > 0
-	for _, d := range tp.delCalls {
+	// the sites at which the handler strips: the Del calls themselves or the calls of the helper holding them
+	var sites []*ssa.Call
+	loopFn := h
+	if tp.stripFn != nil {
+		sites, loopFn = tp.stripCalls, tp.stripFn
+	} else {
+		sites = tp.delCalls
+	}
+	ok := len(tp.delCalls) > 0 && len(sites) > 0
+	for _, d := range sites {
 		if !onlyVia(h, d.Block(), func(f Fact) bool { return f.Kind == FFalse && isTrust(f.V) }) {
 			ok = false
 		}
@@ -211,7 +246,7 @@ func c09Unconditional(w *World, r *Report, tp *tpAnchors) {
 	r.Ob(ri, w.FnName(h)+"|strip-on-untrusted", h.Pos(), ok, "the removal loop must sit on the false edge of the trust test")
 	// the loop covers the whole list: it ranges over the list variable itself (no sub-slice, no early exit)
 	full := false
-	eachInstr(h, func(in ssa.Instruction) {
+	eachInstr(loopFn, func(in ssa.Instruction) {
 		if rg, isR := in.(*ssa.Range); isR {
 			_ = rg
 		}
@@ -225,8 +260,20 @@ func c09Unconditional(w *World, r *Report, tp *tpAnchors) {
 	})
 	// no break out of the loop: the Del block's loop has a single exit (the length test)
 	exits := 0
+	if tp.stripFn != nil {
+		// in a helper the loop must be unconditional: the only branch is the loop's own length test
+		nIf := 0
+		eachInstr(loopFn, func(in ssa.Instruction) {
+			if _, isIf := in.(*ssa.If); isIf {
+				nIf++
+			}
+		})
+		if nIf != 1 {
+			full = false
+		}
+	}
 	for _, d := range tp.delCalls {
-		for _, b := range h.Blocks {
+		for _, b := range loopFn.Blocks {
 			if !(reach(d.Block(), nil)[b] && reach(b, nil)[d.Block()]) && b != d.Block() {
 				continue
 			}
@@ -256,7 +303,37 @@ func c09Unconditional(w *World, r *Report, tp *tpAnchors) {
 	r.Ob(ri, w.FnName(h)+"|always-forwards-same-request", h.Pos(), okN, "next.ServeHTTP must be called on every path with the same request and writer")
 	// the removal cannot be bypassed: without the trusted edge, the request is handed on only through the removal loop
 	okB := len(next) == 1 && len(tp.delCalls) > 0
-	if okB {
+	if okB && tp.stripFn != nil {
+		// the helper call is the removal: hand-on without the trusted edge only through its block
+		hdrs := map[*ssa.BasicBlock]bool{}
+		for _, c := range tp.stripCalls {
+			hdrs[c.Block()] = true
+		}
+		seen := map[*ssa.BasicBlock]bool{}
+		work := []*ssa.BasicBlock{h.Blocks[0]}
+		for len(work) > 0 {
+			b := work[len(work)-1]
+			work = work[:len(work)-1]
+			if seen[b] || hdrs[b] {
+				continue
+			}
+			seen[b] = true
+			for i, sb := range b.Succs {
+				cutEdge := false
+				for _, f := range edgeFacts(b, i) {
+					if f.Kind == FTrue && isTrust(f.V) {
+						cutEdge = true
+					}
+				}
+				if !cutEdge {
+					work = append(work, sb)
+				}
+			}
+		}
+		if seen[next[0].Block()] && !hdrs[next[0].Block()] {
+			okB = false
+		}
+	} else if okB {
 		hdrs := map[*ssa.BasicBlock]bool{}
 		for _, d := range tp.delCalls {
 			// the innermost loop header dominating the Del block
@@ -431,7 +508,9 @@ func c09Extraction(w *World, r *Report, tp *tpAnchors) {
 				if !ok {
 					msg = "URL component " + f + " depends on header " + badH
 				}
-				fb := dependsOnCtl(w, v, func(x ssa.Value) bool { return pathEndsWith(x, fallback[f]) || (f != "Scheme" && pathEndsWith(x, "URL", "RawQuery")) })
+				fb := dependsOnCtl(w, v, func(x ssa.Value) bool {
+					return pathEndsWith(x, fallback[f]) || (f != "Scheme" && pathEndsWith(x, "URL", "RawQuery"))
+				})
 				if ok && !fb {
 					ok, msg = false, "URL component "+f+" has no fallback to the actual request"
 				}
@@ -534,7 +613,10 @@ func c09Upstream(w *World, r *Report) {
 				return
 			}
 			r.Analysed(w.FnName(rf))
-			isOut := func(v ssa.Value) bool { _, p := accessPath(v); return len(p) >= 2 && p[len(p)-2] == "Out" && p[len(p)-1] == "Header" }
+			isOut := func(v ssa.Value) bool {
+				_, p := accessPath(v)
+				return len(p) >= 2 && p[len(p)-2] == "Out" && p[len(p)-1] == "Header"
+			}
 			for _, h := range []string{"X-Forwarded-Method", "X-Forwarded-Uri", "X-Forwarded-Path"} {
 				ok := false
 				for _, d := range findCalls(rf, named("net/http.Header.Del")) {
